@@ -195,16 +195,49 @@ def r13_3(ctx, rc):
         rc.ok({'primitives': sorted(prims)}, key=key)
     sg = ctx.E.super(H, lambda g: g.cls == ctx.R.executor and
                      g.name.startswith('_') and g.qualname != H.qualname)
+    READS = ('method:file.read', 'method:?.read', 'method:file.readinto',
+             'method:?.readinto', 'method:file.read1', 'method:?.read1')
     reads = [x for x in sg.nodes if x.kind == 'ret' and
-             callee_name(x) in ('method:file.read', 'method:?.read')]
+             callee_name(x) in READS]
     if not reads:
         raise AnalysisError('HASH reads no bytes')
+    # the digest distinguishes contents: a collision-resistant function
+    STRONG = {'sha256', 'sha384', 'sha512', 'sha512_256', 'sha3_256',
+              'sha3_384', 'sha3_512', 'blake2b', 'blake2s'}
+    digests = []
+    for x in sg.nodes:
+        if x.kind in ('leaf', 'ret') and x.call is not None and \
+                x.kind == 'leaf':
+            nm = callee_name(x)
+            if isinstance(nm, str) and nm.startswith('hashlib.'):
+                alg = nm.split('.', 1)[1]
+                if alg == 'new' and x.call.args and isinstance(
+                        x.call.args[0], ast.Constant):
+                    alg = str(x.call.args[0].value).lower().replace('-', '_')
+                digests.append((alg, x))
+    key = 'HASH uses a collision-resistant digest'
+    if not digests:
+        raise AnalysisError('no hashlib digest in the HASH implementation')
+    weak = [(a, x) for a, x in digests if a not in STRONG]
+    if weak:
+        rc.violation(
+            'hash-weak | %s | %s' % (H.qualname, weak[0][0]),
+            'HASH compares contents through %s, for which different '
+            'contents with the same digest are known/constructible: a '
+            'changed file can compare equal' % weak[0][0],
+            weak[0][1].where(), key=key)
+    else:
+        rc.ok({'digest': sorted({a for a, _ in digests})}, key=key)
+    # the implementation keeps no unguarded scratch state on the executor,
+    # which all threads of a build share
+    from . import locks as L_
+    L_.shared_state_census(ctx, rc, [ctx.R.executor])
     upd = lambda x: x.kind == 'ret' and callee_name(x) in (
         'method:hash.update', 'method:?.update')
     for r in reads:
         w = Q.first_unguarded(
             sg, [r.id], upd, lambda x: x.kind == 'leaf' and
-            callee_name(x) in ('method:file.read', 'method:?.read'))
+            callee_name(x) in READS)
         key = 'every chunk read is hashed before the next read'
         if w:
             rc.violation('hash-chunk-dropped | ' + H.qualname,
